@@ -74,6 +74,12 @@ func Verify(g kyber.Group, public kyber.Point, msg, sig []byte) error {
 	if err := s.UnmarshalBinary(sig[pointSize:]); err != nil {
 		return err
 	}
+	// The response must be the canonical encoding of a scalar (RFC 8032, 5.1.7:
+	// 0 <= S < L). A scalar type that decodes unreduced values (edwards25519)
+	// would otherwise accept R || S+L as a second signature of the same message.
+	if sb, err := s.MarshalBinary(); err != nil || !bytes.Equal(sb, sig[pointSize:]) {
+		return errors.New("schnorr: signature scalar is not canonical")
+	}
 	// recompute hash(public || R || msg)
 	h, err := hash(g, public, R, msg)
 	if err != nil {
